@@ -1,4 +1,4 @@
-import SciVerif.Lemmas.C19q
+import SciVerif.Lemmas.C19r
 
 /-!
 # C19 — Exported configuration files carry the same values as the environment
@@ -351,6 +351,63 @@ example : let data : List Param := [
     backslash) and read by Bash as one double-quoted word, is unchanged -/
 theorem C19_bash_string_roundtrip (v : Str) : bashWordValue (bashScalar (.s v)) = some v :=
   bashWordValue_scalar v
+
+/-! ## DIP text -/
+
+/-- over the regenerated tables: every type the live DIP parser accepts is exported by `ExportConfig.parse`
+    under a keyword that the reader maps back to exactly that (kind, precision) -/
+theorem C19_types_dip : ∀ d ∈ Gen.dipTypes, ∃ t, lookupType bDip d.1 d.2 = some t ∧ dipKind t = some d := by
+  intro d hd
+  obtain ⟨t, h1, h2, _⟩ := dipKind_lookup d hd
+  exact ⟨t, h1, h2⟩
+
+/-- `_parse_dip_array` text (`[[1,2],[3,4]]`, elements joined by a bare comma) of ANY nested boolean, integer
+    or float value (every rank and size), read as JSON nested lists and interpreted at its kind, is the value -/
+theorem C19_dip_array_roundtrip (k : Kind) (hk : k ≠ Kind.str) (v : Val) (hv : ValOK k v) :
+    (parseInit .backslash '[' ']' (dipArray v)).bind (interp .backslash k (cs!"true") (cs!"false")) = some v :=
+  dipArray_roundtrip k hk v hv
+
+/-- **DIP text, boolean and numeric nodes** (`ParamOKDip` : a DIP name `[a-zA-Z0-9_.-]+`, a non-string type the
+    live parser accepts, a value of that kind that is a scalar or a rectangular array of any rank without empty
+    levels, no unit or a unit the parser reads as one): for every list of such parameters, reading the whole
+    exported text — split into lines; per line name, type keyword, `[dims]`, ` = `, value token, unit — with the
+    model of the DIP node parser gives back exactly the parameters in order: name, kind, precision, shape
+    (declared dimensions = actual shape), value, unit.
+    PARTIAL: string nodes are excluded (their quoted values are read by a lazy regular expression with
+    look-ahead, arrays as JSON with `\\uXXXX` escapes; not modelled — `readDipLine` answers `none` for `str`;
+    the known finding `dip:string-trailing-backslash` lives there), so no full `…_statement` over all kinds can
+    be written against this reader; strings stay covered by the correspondence with the real parser only. -/
+theorem C19_roundtrip_dip_partial (data : List Param) (hok : ∀ p ∈ data, ParamOKDip p) :
+    (exportDip data).bind readDip = some (expectedDip data) :=
+  readDip_exportDip data hok
+
+/-- one exported line -/
+theorem C19_roundtrip_dip_line_partial (p : Param) (h : ParamOKDip p) :
+    (lineDip p).bind readDipLine = some { p with tags := [] } :=
+  readDipLine_lineDip p h
+
+/-- the hypotheses are satisfiable by a non-trivial environment (a 2x2 integer matrix with a unit, a boolean,
+    a float with a compound unit, a rank-3 unsigned array), and the texts are what the exporter writes -/
+example : let data : List Param := [
+      ⟨cs!"box.m", .int, 32, .arr [.arr [.leaf (.i 1), .leaf (.i (-2))], .arr [.leaf (.i 3), .leaf (.i 4)]], some (cs!"cm"), [cs!"t"]⟩,
+      ⟨cs!"sim.flag", .bool, 0, .leaf (.b true), none, []⟩,
+      ⟨cs!"v-0", .float, 64, .leaf (.f (cs!"1e-05")), some (cs!"m/s2"), []⟩,
+      ⟨cs!"t", .uint, 64, .arr [.arr [.arr [.leaf (.i 7)], .arr [.leaf (.i 8)]]], none, []⟩]
+    (∀ p ∈ data, ParamOKDip p) ∧
+      exportDip data = some (cs!"box.m int[2,2] = [[1,-2],[3,4]] cm\nsim.flag bool = true\nv-0 float = 1e-05 m/s2\nt uint64[1,2,1] = [[[7],[8]]]") ∧
+      (exportDip data).bind readDip = some (expectedDip data) := by
+  intro data
+  have hok : ∀ p ∈ data, ParamOKDip p := ?_
+  · exact ⟨hok, by decide +kernel, C19_roundtrip_dip_partial data hok⟩
+  intro p hp
+  simp only [data, List.mem_cons, List.mem_nil_iff, or_false] at hp
+  rcases hp with rfl | rfl | rfl | rfl
+  · exact ⟨by decide, by decide, by decide, by decide, by simp [ValOK, ValsOK, ScalarOK], ⟨[2, 2], by decide, by decide⟩,
+      ⟨by decide, _, _, rfl, by decide, by decide, by decide, by decide⟩⟩
+  · exact ⟨by decide, by decide, by decide, by decide, by simp [ValOK, ScalarOK], ⟨[], by decide, by decide⟩, trivial⟩
+  · exact ⟨by decide, by decide, by decide, by decide, by simp [ValOK, ScalarOK]; decide, ⟨[], by decide, by decide⟩,
+      ⟨by decide, _, _, rfl, by decide, by decide, by decide, by decide⟩⟩
+  · exact ⟨by decide, by decide, by decide, by decide, by simp [ValOK, ValsOK, ScalarOK], ⟨[1, 2, 1], by decide, by decide⟩, trivial⟩
 
 /-! ## selection and renaming -/
 
